@@ -63,6 +63,9 @@ fn workload_op() -> BoxedStrategy<Op> {
         1 => Just(Op::Register { ttl: None }),
         3 => op_strategy(&p).prop_filter("imports and removes", |o| matches!(o, Op::Import(_) | Op::Remove(_))),
         2 => any::<u16>().prop_map(|k| Op::Remove(IdSel::Known(k))),
+        // an import over a stored id that moves the frame to another topic and/or context
+        2 => (any::<u16>(), proptest::option::weighted(0.5, topic()), proptest::option::weighted(0.7, 0u8..4))
+            .prop_map(|(target, topic, ctx)| Op::Import(ImportOp::Move { target, topic, ctx })),
         1 => Just(Op::Drain),
         1 => (any::<u16>(), proptest::sample::select(vec![0i64, 1])).prop_map(|(frame, delta)| Op::Clock { frame, delta }),
         1 => Just(Op::Read { path: ReadPath::Sync, ctx: None, last: None, limit: None }),
